@@ -37,6 +37,10 @@ type serverStream struct {
 	rw            types.RpcReadWriter
 	statsHandlers []stats.Handler
 
+	// recvEnd holds the end of the stream when it arrived in the same Rpc as
+	// the last message. Only RecvMsg touches it.
+	recvEnd *goatorepo.Rpc
+
 	protected struct {
 		sync.Mutex
 
@@ -222,9 +226,19 @@ func (ss *serverStream) SendMsg(m interface{}) error {
 // calling RecvMsg on the same stream at the same time, but it is not
 // safe to call RecvMsg on the same stream in different goroutines.
 func (ss *serverStream) RecvMsg(m interface{}) error {
-	rpc, err := ss.rw.Read(ss.ctx)
-	if err != nil {
-		return errors.Wrap(err, "RecvMsg Read")
+	rpc := ss.recvEnd
+	if rpc == nil {
+		var err error
+		rpc, err = ss.rw.Read(ss.ctx)
+		if err != nil {
+			return errors.Wrap(err, "RecvMsg Read")
+		}
+		if rpc.GetTrailer() != nil && rpc.GetBody() != nil {
+			// The last message may share its envelope with the trailer: hand
+			// the message over now and the end of the stream on the next call.
+			ss.recvEnd = &goatorepo.Rpc{Status: rpc.GetStatus(), Trailer: rpc.GetTrailer()}
+			rpc = &goatorepo.Rpc{Body: rpc.GetBody()}
+		}
 	}
 
 	if rpc.GetTrailer() != nil {
@@ -245,7 +259,7 @@ func (ss *serverStream) RecvMsg(m interface{}) error {
 	buf := mem.NewBuffer(&data, nil)
 	bs := mem.BufferSlice{buf}
 
-	err = ss.codec.Unmarshal(bs, m)
+	err := ss.codec.Unmarshal(bs, m)
 
 	if err == nil {
 		for _, sh := range ss.statsHandlers {
